@@ -1322,6 +1322,9 @@ impl VfsEntry {
     #[verifier::external_body] pub fn is_dir(&self) -> (r: bool) ensures r == self.xdir() { unimplemented!() }
     #[verifier::external_body] pub fn is_file(&self) -> (r: bool) ensures r == self.xfile() { unimplemented!() }
     // Entry default methods (proved for the trait defaults above): link && dir / link && file
+    #[verifier::external_body] pub fn is_exec(&self) -> (r: bool) ensures r == (self.xmode() & 0o111 != 0) { unimplemented!() }
+    #[verifier::external_body] pub fn is_readonly(&self) -> (r: bool) ensures r == (self.xmode() & 0o222 == 0) { unimplemented!() }
+    #[verifier::external_body] pub fn path_buf(&self) -> (r: PathBuf) ensures r@ == self.iv().path, r.abs_clean() == self.iv().path_ok, self.iv().path_ok ==> r.comps() == abs_comps(r@) { unimplemented!() }
     #[verifier::external_body] pub fn is_symlink_dir(&self) -> (r: bool) ensures r == (self.iv().link && self.xdir()) { unimplemented!() }
     #[verifier::external_body] pub fn is_symlink_file(&self) -> (r: bool) ensures r == (self.iv().link && self.xfile()) { unimplemented!() }
 }
@@ -1339,7 +1342,6 @@ pub proof fn ax_traversal(snap: St, root: PathV, follow: bool)
                 let it = #[trigger] traversal(snap, root, follow)[i];
                 it.path_ok && in_sub(root, it.path) && (it.link ==> !no_links(snap)) }
 { }
-pub open spec fn in_sub(a: PathV, p: PathV) -> bool { a.len() <= p.len() && p.take(a.len() as int) == a }
 // ASSUMED[traversal], any configuration: yielded paths are absolute and clean
 #[verifier::external_body]
 pub proof fn ax_traversal_cfg(snap: St, root: PathV, cfg: TravCfg)
